@@ -1065,7 +1065,26 @@ func (m *Machine) rangeIter(x value, t types.Type) iter {
 			ents = live
 		}
 		if m.mapOrder && len(ents) > 1 {
-			ents = m.permute(ents)
+			// one iteration order per map object and size on a path (Go draws a fresh order
+			// for every range statement; repeating the choice per statement would square
+			// the path count without exercising anything new in this code base)
+			if m.mapPerm == nil {
+				m.mapPerm = make(map[*mapV][]mapEntry)
+			}
+			if old, ok := m.mapPerm[x]; ok && len(old) == len(ents) {
+				ents = append([]mapEntry(nil), old...)
+				// values may have been updated since: refresh them by key position
+				for i := range ents {
+					for _, cur := range x.ents {
+						if b, isb := m.equals(x.keyT, ents[i].k, cur.k).(bool); isb && b {
+							ents[i].v = cur.v
+						}
+					}
+				}
+			} else {
+				ents = m.permute(ents)
+				m.mapPerm[x] = append([]mapEntry(nil), ents...)
+			}
 		}
 		return &mapIter{m: x, ents: ents}
 	case string, sstr:
